@@ -201,6 +201,11 @@ func runChild(name string) {
 // its reply. A child that dies or times out is an infrastructure matter of
 // the caller's (the job's own verdict travels in the reply).
 func freshProcess(name string, req any, reply any) error {
+	return freshProcessEnv(name, req, reply)
+}
+
+// freshProcessEnv is freshProcess with extra environment entries (appended last, so they win).
+func freshProcessEnv(name string, req any, reply any, extraEnv ...string) error {
 	exe, err := os.Executable()
 	if err != nil {
 		return err
@@ -215,7 +220,7 @@ func freshProcess(name string, req any, reply any) error {
 	cmd.Stdin = bytes.NewReader(in)
 	var stdout, stderr bytes.Buffer
 	cmd.Stdout, cmd.Stderr = &stdout, &stderr
-	cmd.Env = append(os.Environ(), "GORACE=halt_on_error=0 exitcode=0")
+	cmd.Env = append(append(os.Environ(), "GORACE=halt_on_error=0 exitcode=0"), extraEnv...)
 	if err := cmd.Run(); err != nil {
 		return fmt.Errorf("child %s: %v: %s", name, err, clip(stderr.String(), 2000))
 	}
